@@ -19,19 +19,21 @@ PROPS = {
     },
     "C11": {
         "thm_modules": ["Rq.Thm.C11"],
-        "engines": [("kernels", "release"), ("kernels", "debug")],
+        "engines": [("kernels", "release"), ("kernels", "debug"), ("workload", "release"), ("workload", "debug")],
+        "nostd_workload": True,
         "modelled": ["CPU instruction semantics (pshufb per 128-bit lane, srli_epi64, and/xor, masked move, bit extraction) modelled byte-wise from the vendor description", "alignment does not exist in the model (unaligned loads/stores only); swept by the correspondence run", "NEON kernels are not compiled for this host"],
         "assumptions": ["runtime half (the silicon agrees with the modelled intrinsics; every alignment) is observed by the correspondence run on every path the host offers, not proved: labelled partial in DESIGN.md"],
     },
     "C12": {
         "thm_modules": ["Rq.Thm.C12", "Rq.Thm.C12b"],
-        "engines": [("kernels", "release"), ("kernels", "debug"), ("slab", "release"), ("slab", "debug")],
+        "engines": [("kernels", "release"), ("kernels", "debug"), ("slab", "release"), ("slab", "debug"), ("decblk", "release")],
         "modelled": ["accesses are (buffer, offset, width) triples produced by the same loop skeletons as the kernels; that the Rust pointer expressions are these offsets is validated by guard pages, not proved"],
         "assumptions": ["every kernel operand of the correspondence run is placed flush against PROT_NONE guard pages (end-flush / start-flush / 64 offsets); a fault is reported with the exact case"],
     },
     "C14": {
         "thm_modules": ["Rq.Thm.C14"],
-        "engines": [("genparams", "release"), ("genparams", "debug")],
+        "engines": [("genparams", "release"), ("genparams", "debug"), ("workload", "release"), ("workload", "debug")],
+        "nostd_workload": True,
         "modelled": ["u64/u32/u16/u8 casts of generate_encoding_parameters as explicit % on naturals", "the closure kl and the N search as a reversed find? and a fuel recursion"],
         "assumptions": [RFC_TABLES, "domain of the theorem = the property's domain (InDomain): 1 <= P < 65536, 1 <= F <= 56403*255*T, WS < 2^64, KL(Nmax) defined, Z <= 255"],
     },
@@ -61,13 +63,15 @@ PROPS = {
     },
     "C13": {
         "thm_modules": ["Rq.Thm.C13"],
-        "engines": [("wire", "release")],
+        "engines": [("wire", "release"), ("workload", "release"), ("workload", "debug")],
+        "nostd_workload": True,
         "modelled": ["Vec<u8>/array plumbing of base.rs (extend_from_slice, Vec::from)"],
         "assumptions": ["bytes are modelled as naturals < 256; u8/u16/u32/u64 casts of base.rs written as % and /"],
     },
     "C19": {
         "thm_modules": ["Rq.Thm.C19"],
-        "engines": [("otinew", "release"), ("otinew", "debug")],
+        "engines": [("otinew", "release"), ("otinew", "debug"), ("workload", "release"), ("workload", "debug")],
+        "nostd_workload": True,
         "modelled": ["assert!/assert_eq! as Option.none"],
         "assumptions": ["arguments range over their Rust types (u64, u16, u8, u16, u8); positive T, Z, Al as the property states"],
     },
@@ -126,7 +130,7 @@ PROPS.update({
     },
     "C07": {
         "thm_modules": ["Rq.Thm.C07"],
-        "engines": [("configs", "release"), ("configs", "debug"), ("kernels", "release"), ("solver", "release"), ("solver", "debug")],
+        "engines": [("configs", "release"), ("configs", "debug"), ("kernels", "release"), ("solver", "release"), ("solver", "debug"), ("matrices", "release")],
         "nostd_workload": True,
         "modelled": [SOLVER, "optimised vs debug-assertion code generation, std vs no_std, and the release-only errata-11 column skipping are not modelled: covered by the correspondence run only (partial)"],
         "assumptions": ["four builds (std/no_std x checked/unchecked) run one public-API workload and are compared textually; inside the std harness: dispatch ceiling x sparse threshold x plan mode grid against the canonical result, which is tied to the model"],
